@@ -3,11 +3,27 @@
 //! routes), vault factory -> vault [uwhale], vault router, fee collector <-> fee distributor <-> whale lair,
 //! incentive factory -> incentive on the pair's LP token, frontend helper, epoch manager (+ a hook sink).
 //! Everything is funded so that payload-valid calls can succeed.
+//!
+//! Transient state (phase `inloan`): a BORROWER mock contract takes a flash loan from the hub's vault and,
+//! inside the loan callback (LOAN_COUNTER = 1, the loaned coins out of the vault), makes the call under test.
+//! The call is made through the App's custom-message module (`Injector`): `CosmosMsg::Custom(InjectMsg)` is
+//! routed as `WasmMsg::Execute` with the sender named in the message, so that EVERY role address can be the
+//! sender of a call nested in the loan (a top-level `app.execute(sender, ..)` can impersonate anybody; a
+//! message sent by a contract cannot, hence the module). The module writes the nested call's own result
+//! (ok / depth / root error text) to a log outside the transactional storage; the borrower catches the
+//! error of the nested call (`reply_always`), pays the loan back and the transaction completes. The loan is
+//! small enough for all its fees to floor to zero, so a loan whose nested call was refused must leave every
+//! contract and balance byte-identical (checked once per hub on a loan without nested call).
 use cosmwasm_schema::cw_serde;
 use cosmwasm_std::{
-    coin, to_json_binary, Addr, Binary, Coin, Decimal, Empty, Response, StdError, Uint128, Uint64,
+    coin, to_json_binary, Addr, Api, BankMsg, Binary, BlockInfo, Coin, CosmosMsg, CustomQuery, Decimal, Empty, Querier,
+    Reply, Response, StdError, Storage, SubMsg, Uint128, Uint64, WasmMsg,
 };
-use cw_multi_test::{App, AppBuilder, BankKeeper, ContractWrapper, Executor};
+use cw_multi_test::{
+    App, AppResponse, BankKeeper, BasicAppBuilder, ContractWrapper, CosmosRouter, Executor, Module, WasmKeeper,
+};
+use std::cell::RefCell;
+use std::rc::Rc;
 use white_whale_std::epoch_manager::epoch_manager as em;
 use white_whale_std::epoch_manager::hooks::EpochChangedHookMsg;
 use white_whale_std::fee::{Fee, VaultFee};
@@ -24,13 +40,173 @@ pub const DAY_NS: u64 = 86_400_000_000_000;
 pub const HELPER_ALLOWANCE: u128 = 7_777;
 pub const DENOMS: [&str; 4] = ["uwhale", "uusdc", "uusdt", "bwhale"];
 
+/// amount the borrower mock borrows: every fee share of the hub's vault (1 permille) floors to zero on it
+pub const LOAN_AMOUNT: u128 = 500;
+
+/// the flows of the hub's incentive contract, in creation order: (flow id, creator is `flowCreator` (else
+/// `otherFlowCreator`), label, starts one epoch later). Storage order (start_epoch, flow_id) is 1, 2, 4, 3:
+/// label "shared" denotes flow 1 (flowCreator's) although otherFlowCreator owns a flow carrying it too, and
+/// label "late" denotes flow 4 (otherFlowCreator's) although flowCreator owns flow 3 carrying it too.
+pub const FLOW_WORLD: [(u64, bool, &str, bool); 4] =
+    [(1, true, "shared", false), (2, false, "shared", false), (3, true, "late", true), (4, false, "late", false)];
+/// object selectors of the op line for messages that name a flow
+pub const FLOW_SELECTORS: [&str; 7] = ["id1", "id2", "id3", "id4", "labShared", "labLate", "id9"];
+pub fn flow_identifier(sel: &str) -> Option<inc::FlowIdentifier> {
+    Some(match sel {
+        "id1" => inc::FlowIdentifier::Id(1),
+        "id2" => inc::FlowIdentifier::Id(2),
+        "id3" => inc::FlowIdentifier::Id(3),
+        "id4" => inc::FlowIdentifier::Id(4),
+        "id9" => inc::FlowIdentifier::Id(9),
+        "labShared" => inc::FlowIdentifier::Label("shared".into()),
+        "labLate" => inc::FlowIdentifier::Label("late".into()),
+        _ => return None,
+    })
+}
+
+/// custom message of the hub's App: "execute this wasm message with THAT sender" (see module docs)
+#[cw_serde]
+pub struct InjectMsg {
+    pub sender: String,
+    pub contract_addr: String,
+    pub msg: Binary,
+    pub funds: Vec<Coin>,
+}
+impl cosmwasm_std::CustomMsg for InjectMsg {}
+
+/// result of the nested call itself, as seen by the module that dispatched it
+#[derive(Clone, Debug, PartialEq)]
+pub enum InnerOutcome {
+    Ok,
+    /// (number of `WasmMsg` levels in the error chain: 1 = refused by the called contract itself, root error text)
+    Err(usize, String),
+}
+
+pub type InjectLog = Rc<RefCell<Vec<InnerOutcome>>>;
+
+pub struct Injector {
+    pub log: InjectLog,
+}
+
+pub fn error_depth_and_root(e: &anyhow::Error) -> (usize, String) {
+    let chain: Vec<String> = e.chain().map(|c| c.to_string()).collect();
+    let depth = chain.iter().filter(|c| c.starts_with("error executing WasmMsg")).count();
+    (depth, chain.last().cloned().unwrap_or_default())
+}
+
+impl Module for Injector {
+    type ExecT = InjectMsg;
+    type QueryT = Empty;
+    type SudoT = Empty;
+
+    fn execute<ExecC, QueryC>(
+        &self,
+        api: &dyn Api,
+        storage: &mut dyn Storage,
+        router: &dyn CosmosRouter<ExecC = ExecC, QueryC = QueryC>,
+        block: &BlockInfo,
+        _sender: Addr,
+        msg: InjectMsg,
+    ) -> anyhow::Result<AppResponse>
+    where
+        ExecC: std::fmt::Debug + Clone + PartialEq + schemars::JsonSchema + serde::de::DeserializeOwned + 'static,
+        QueryC: CustomQuery + serde::de::DeserializeOwned + 'static,
+    {
+        let InjectMsg { sender, contract_addr, msg, funds } = msg;
+        let r = router.execute(
+            api,
+            storage,
+            block,
+            Addr::unchecked(sender),
+            CosmosMsg::Wasm(WasmMsg::Execute { contract_addr, msg, funds }),
+        );
+        self.log.borrow_mut().push(match &r {
+            Ok(_) => InnerOutcome::Ok,
+            Err(e) => {
+                let (d, root) = error_depth_and_root(e);
+                InnerOutcome::Err(d, root)
+            }
+        });
+        r
+    }
+
+    fn sudo<ExecC, QueryC>(
+        &self,
+        _api: &dyn Api,
+        _storage: &mut dyn Storage,
+        _router: &dyn CosmosRouter<ExecC = ExecC, QueryC = QueryC>,
+        _block: &BlockInfo,
+        _msg: Empty,
+    ) -> anyhow::Result<AppResponse>
+    where
+        ExecC: std::fmt::Debug + Clone + PartialEq + schemars::JsonSchema + serde::de::DeserializeOwned + 'static,
+        QueryC: CustomQuery + serde::de::DeserializeOwned + 'static,
+    {
+        anyhow::bail!("injector: no sudo")
+    }
+
+    fn query(
+        &self,
+        _api: &dyn Api,
+        _storage: &dyn Storage,
+        _querier: &dyn Querier,
+        _block: &BlockInfo,
+        _request: Empty,
+    ) -> anyhow::Result<Binary> {
+        anyhow::bail!("injector: no query")
+    }
+}
+
+pub type HubApp = App<BankKeeper, cosmwasm_std::testing::MockApi, cosmwasm_std::testing::MockStorage, Injector, WasmKeeper<InjectMsg, Empty>>;
+
+/// the borrower mock: `Start` borrows `amount` from `vault`; the vault calls back `Loaned` with the coins;
+/// there the borrower makes the nested call (if any), swallows its error, and pays back exactly what it got
+#[cw_serde]
+pub enum BorrowerMsg {
+    Start { vault: String, amount: Uint128, inner: Option<InjectMsg> },
+    Loaned { inner: Option<InjectMsg> },
+}
+
+fn borrower_execute(
+    _d: cosmwasm_std::DepsMut,
+    _e: cosmwasm_std::Env,
+    info: cosmwasm_std::MessageInfo,
+    msg: BorrowerMsg,
+) -> Result<Response<InjectMsg>, StdError> {
+    match msg {
+        BorrowerMsg::Start { vault, amount, inner } => Ok(Response::new().add_message(WasmMsg::Execute {
+            contract_addr: vault,
+            msg: to_json_binary(&vmsg::ExecuteMsg::FlashLoan { amount, msg: to_json_binary(&BorrowerMsg::Loaned { inner })? })?,
+            funds: vec![],
+        })),
+        BorrowerMsg::Loaned { inner } => {
+            let mut r = Response::new();
+            if let Some(i) = inner {
+                r = r.add_submessage(SubMsg::reply_always(CosmosMsg::Custom(i), 1));
+            }
+            Ok(r.add_message(BankMsg::Send { to_address: info.sender.into_string(), amount: info.funds }))
+        }
+    }
+}
+
+fn borrower_contract() -> Box<dyn cw_multi_test::Contract<InjectMsg>> {
+    Box::new(
+        ContractWrapper::new(
+            borrower_execute,
+            |_d, _e, _i, _m: Empty| -> Result<Response<InjectMsg>, StdError> { Ok(Response::new()) },
+            |_d, _e, _m: Empty| -> Result<Binary, StdError> { Err(StdError::generic_err("no query")) },
+        )
+        .with_reply(|_d, _e, _r: Reply| -> Result<Response<InjectMsg>, StdError> { Ok(Response::new()) }),
+    )
+}
+
 #[cw_serde]
 pub enum SinkMsg {
     EpochChangedHook(EpochChangedHookMsg),
 }
 
-fn sink_contract() -> Box<dyn cw_multi_test::Contract<Empty>> {
-    Box::new(ContractWrapper::new(
+fn sink_contract() -> Box<dyn cw_multi_test::Contract<InjectMsg>> {
+    Box::new(ContractWrapper::new_with_empty(
         |_d, _e, _i, _m: SinkMsg| -> Result<Response, StdError> { Ok(Response::new()) },
         |_d, _e, _i, _m: Empty| -> Result<Response, StdError> { Ok(Response::new()) },
         |_d, _e, _m: Empty| -> Result<Binary, StdError> { Err(StdError::generic_err("no query")) },
@@ -56,13 +232,17 @@ pub struct Codes {
 }
 
 pub struct Hub {
-    pub app: App,
+    pub app: HubApp,
+    /// results of nested calls dispatched by the Injector module (survives reverts)
+    pub inject_log: InjectLog,
     // accounts
     pub o: Addr,
     pub n: Addr,
     pub u: Addr,
     pub a: Addr,
     pub f: Addr,
+    /// `otherFlowCreator`: owns flows 2 and 4, which share their labels with flowCreator's flows 1 and 3
+    pub g: Addr,
     // contracts
     pub pool_factory: Addr,
     pub pair: Addr,
@@ -83,6 +263,7 @@ pub struct Hub {
     pub lair: Addr,
     pub epoch_manager: Addr,
     pub sink: Addr,
+    pub borrower: Addr,
     pub codes: Codes,
     pub transferred: bool,
 }
@@ -99,112 +280,116 @@ impl Hub {
         let u = Addr::unchecked("user");
         let a = Addr::unchecked("wasmadmin");
         let f = Addr::unchecked("flowcreator");
-        let eoas = [o.clone(), n.clone(), u.clone(), a.clone(), f.clone()];
+        let g = Addr::unchecked("otherflowcreator");
+        let eoas = [o.clone(), n.clone(), u.clone(), a.clone(), f.clone(), g.clone()];
         let big = 10u128.pow(13);
         let bals: Vec<(Addr, Vec<Coin>)> =
             eoas.iter().map(|e| (e.clone(), DENOMS.iter().map(|d| coin(big, *d)).collect())).collect();
-        let mut app = AppBuilder::new().with_bank(BankKeeper::new()).build(|router, _api, storage| {
-            for (a, c) in bals {
-                router.bank.init_balance(storage, &a, c).unwrap();
-            }
-        });
+        let inject_log: InjectLog = Rc::new(RefCell::new(vec![]));
+        let mut app: HubApp = BasicAppBuilder::<InjectMsg, Empty>::new_custom()
+            .with_custom(Injector { log: inject_log.clone() })
+            .build(|router, _api, storage| {
+                for (a, c) in bals {
+                    router.bank.init_balance(storage, &a, c).unwrap();
+                }
+            });
         let t0 = app.block_info().time;
         let adm = Some(a.to_string());
 
-        let token_id = app.store_code(Box::new(ContractWrapper::new(
+        let token_id = app.store_code(Box::new(ContractWrapper::new_with_empty(
             terraswap_token::contract::execute,
             terraswap_token::contract::instantiate,
             terraswap_token::contract::query,
         )));
         let pair_id = app.store_code(Box::new(
-            ContractWrapper::new(
+            ContractWrapper::new_with_empty(
                 terraswap_pair::contract::execute,
                 terraswap_pair::contract::instantiate,
                 terraswap_pair::contract::query,
             )
-            .with_reply(terraswap_pair::contract::reply),
+            .with_reply_empty(terraswap_pair::contract::reply),
         ));
         let trio_id = app.store_code(Box::new(
-            ContractWrapper::new(
+            ContractWrapper::new_with_empty(
                 stableswap_3pool::contract::execute,
                 stableswap_3pool::contract::instantiate,
                 stableswap_3pool::contract::query,
             )
-            .with_reply(stableswap_3pool::contract::reply),
+            .with_reply_empty(stableswap_3pool::contract::reply),
         ));
         let pfac_id = app.store_code(Box::new(
-            ContractWrapper::new(
+            ContractWrapper::new_with_empty(
                 terraswap_factory::contract::execute,
                 terraswap_factory::contract::instantiate,
                 terraswap_factory::contract::query,
             )
-            .with_reply(terraswap_factory::contract::reply),
+            .with_reply_empty(terraswap_factory::contract::reply),
         ));
-        let router_id = app.store_code(Box::new(ContractWrapper::new(
+        let router_id = app.store_code(Box::new(ContractWrapper::new_with_empty(
             terraswap_router::contract::execute,
             terraswap_router::contract::instantiate,
             terraswap_router::contract::query,
         )));
         let incf_id = app.store_code(Box::new(
-            ContractWrapper::new(
+            ContractWrapper::new_with_empty(
                 incentive_factory::contract::execute,
                 incentive_factory::contract::instantiate,
                 incentive_factory::contract::query,
             )
-            .with_reply(incentive_factory::contract::reply),
+            .with_reply_empty(incentive_factory::contract::reply),
         ));
-        let inc_id = app.store_code(Box::new(ContractWrapper::new(
+        let inc_id = app.store_code(Box::new(ContractWrapper::new_with_empty(
             incentive::contract::execute,
             incentive::contract::instantiate,
             incentive::contract::query,
         )));
         let helper_id = app.store_code(Box::new(
-            ContractWrapper::new(
+            ContractWrapper::new_with_empty(
                 frontend_helper::contract::execute,
                 frontend_helper::contract::instantiate,
                 frontend_helper::contract::query,
             )
-            .with_reply(frontend_helper::contract::reply),
+            .with_reply_empty(frontend_helper::contract::reply),
         ));
         let vfac_id = app.store_code(Box::new(
-            ContractWrapper::new(
+            ContractWrapper::new_with_empty(
                 vault_factory::contract::execute,
                 vault_factory::contract::instantiate,
                 vault_factory::contract::query,
             )
-            .with_reply(vault_factory::reply::reply),
+            .with_reply_empty(vault_factory::reply::reply),
         ));
         let vault_id = app.store_code(Box::new(
-            ContractWrapper::new(vault::contract::execute, vault::contract::instantiate, vault::contract::query)
-                .with_reply(vault::reply::reply),
+            ContractWrapper::new_with_empty(vault::contract::execute, vault::contract::instantiate, vault::contract::query)
+                .with_reply_empty(vault::reply::reply),
         ));
-        let vrouter_id = app.store_code(Box::new(ContractWrapper::new(
+        let vrouter_id = app.store_code(Box::new(ContractWrapper::new_with_empty(
             vault_router::contract::execute,
             vault_router::contract::instantiate,
             vault_router::contract::query,
         )));
         let col_id = app.store_code(Box::new(
-            ContractWrapper::new(
+            ContractWrapper::new_with_empty(
                 fee_collector::contract::execute,
                 fee_collector::contract::instantiate,
                 fee_collector::contract::query,
             )
-            .with_reply(fee_collector::contract::reply),
+            .with_reply_empty(fee_collector::contract::reply),
         ));
         let dist_id = app.store_code(Box::new(
-            ContractWrapper::new(
+            ContractWrapper::new_with_empty(
                 fee_distributor::contract::execute,
                 fee_distributor::contract::instantiate,
                 fee_distributor::contract::query,
             )
-            .with_reply(fee_distributor::contract::reply),
+            .with_reply_empty(fee_distributor::contract::reply),
         ));
-        let lair_id = app.store_code(Box::new(ContractWrapper::new(
+        let lair_id = app.store_code(Box::new(ContractWrapper::new_with_empty(
             whale_lair::contract::execute,
             whale_lair::contract::instantiate,
             whale_lair::contract::query,
         )));
-        let em_id = app.store_code(Box::new(ContractWrapper::new(
+        let em_id = app.store_code(Box::new(ContractWrapper::new_with_empty(
             epoch_manager::contract::execute,
             epoch_manager::contract::instantiate,
             epoch_manager::contract::query,
@@ -369,7 +554,7 @@ impl Hub {
                     fee_collector_addr: collector.to_string(),
                     fee_distributor_addr: distributor.to_string(),
                     create_flow_fee: Asset { info: nat("uwhale"), amount: Uint128::new(1_000) },
-                    max_concurrent_flows: 5,
+                    max_concurrent_flows: 7,
                     incentive_code_id: inc_id,
                     max_flow_epoch_buffer: 14,
                     min_unbonding_duration: 86_400,
@@ -392,7 +577,7 @@ impl Hub {
             .map_err(s("helper"))?;
 
         // allowances on the asset token, liquidity
-        let allow = |app: &mut App, owner: &Addr, token: &Addr, spender: &Addr, amount: u128| -> R<()> {
+        let allow = |app: &mut HubApp, owner: &Addr, token: &Addr, spender: &Addr, amount: u128| -> R<()> {
             app.execute_contract(
                 owner.clone(),
                 token.clone(),
@@ -584,19 +769,28 @@ impl Hub {
             &[],
         )
         .map_err(s("open position"))?;
-        app.execute_contract(
-            f.clone(),
-            incentive.clone(),
-            &inc::ExecuteMsg::OpenFlow {
-                start_epoch: None,
-                end_epoch: Some(12),
-                curve: None,
-                flow_asset: Asset { info: nat("uusdc"), amount: Uint128::new(1_000_000) },
-                flow_label: Some("f1".into()),
-            },
-            &[coin(1_000_000, "uusdc"), coin(1_000, "uwhale")],
-        )
-        .map_err(s("open flow"))?;
+        // four flows, two creators, two labels each carried by a flow of either creator (FLOW_WORLD)
+        let epoch_now: fd::EpochResponse = app
+            .wrap()
+            .query_wasm_smart(&distributor, &fd::QueryMsg::CurrentEpoch {})
+            .map_err(s("current epoch"))?;
+        let e_now = epoch_now.epoch.id.u64();
+        for (id, by_f, label, later) in FLOW_WORLD {
+            let amount = 1_000_000 * id as u128;
+            app.execute_contract(
+                if by_f { f.clone() } else { g.clone() },
+                incentive.clone(),
+                &inc::ExecuteMsg::OpenFlow {
+                    start_epoch: if later { Some(e_now + 1) } else { None },
+                    end_epoch: Some(12),
+                    curve: None,
+                    flow_asset: Asset { info: nat("uusdc"), amount: Uint128::new(amount) },
+                    flow_label: Some(label.into()),
+                },
+                &[coin(amount, "uusdc"), coin(1_000, "uwhale")],
+            )
+            .map_err(s("open flow"))?;
+        }
 
         // epoch manager with one hook
         let epoch_manager = app
@@ -673,19 +867,27 @@ impl Hub {
             .map_err(s("float tok"))?;
         }
 
+        // the borrower mock (last, so that no other address depends on it)
+        let borrower_id = app.store_code(borrower_contract());
+        let borrower = app
+            .instantiate_contract(borrower_id, u.clone(), &Empty {}, &[], "borrower", None)
+            .map_err(s("borrower"))?;
+
         // exactly one epoch later: NewEpoch / CreateEpoch are due and bonding is still allowed
         app.update_block(|b| {
             b.time = b.time.plus_nanos(DAY_NS);
             b.height += 1;
         });
 
-        Ok(Hub {
+        let hub = Hub {
             app,
+            inject_log,
             o,
             n,
             u,
             a,
             f,
+            g,
             pool_factory,
             pair,
             trio,
@@ -705,9 +907,52 @@ impl Hub {
             lair,
             epoch_manager,
             sink,
+            borrower,
             codes: Codes { token: token_id, pair: pair_id, trio: trio_id, vault: vault_id, incentive: inc_id },
             transferred: false,
-        })
+        };
+        // the flow world is what the selectors (and the Lean model's initial state) say it is
+        let flows = hub.flows();
+        let want: Vec<(u64, Addr, Option<String>)> = [FLOW_WORLD[0], FLOW_WORLD[1], FLOW_WORLD[3], FLOW_WORLD[2]]
+            .iter()
+            .map(|(id, by_f, label, _)| (*id, if *by_f { hub.f.clone() } else { hub.g.clone() }, Some(label.to_string())))
+            .collect();
+        let got: Vec<(u64, Addr, Option<String>)> =
+            flows.iter().map(|fl| (fl.flow_id, fl.flow_creator.clone(), fl.flow_label.clone())).collect();
+        if got != want {
+            return Err(format!("flow world: storage holds {got:?}, expected {want:?}"));
+        }
+        Ok(hub)
+    }
+
+    /// the incentive contract's flows decoded from its RAW storage (map namespace "flows"), in storage order
+    pub fn flows(&self) -> Vec<inc::Flow> {
+        let prefix: &[u8] = b"\x00\x05flows";
+        self.app
+            .dump_wasm_raw(&self.incentive)
+            .into_iter()
+            .filter(|(k, _)| k.starts_with(prefix))
+            .filter_map(|(_, v)| cosmwasm_std::from_json::<inc::Flow>(&v).ok())
+            .collect()
+    }
+
+    /// one transaction: the borrower mock borrows LOAN_AMOUNT from the hub's vault and makes the nested call
+    /// `inner` (if any) inside the loan callback. Returns (result of the nested call as logged by the Injector,
+    /// result of the whole transaction).
+    pub fn loan_with(&mut self, inner: Option<InjectMsg>) -> (Option<InnerOutcome>, Result<(), (usize, String)>) {
+        self.inject_log.borrow_mut().clear();
+        let start = BorrowerMsg::Start { vault: self.vault.to_string(), amount: Uint128::new(LOAN_AMOUNT), inner };
+        let outer = self
+            .app
+            .execute(
+                self.u.clone(),
+                WasmMsg::Execute { contract_addr: self.borrower.to_string(), msg: to_json_binary(&start).unwrap(), funds: vec![] }
+                    .into(),
+            )
+            .map(|_| ())
+            .map_err(|e| error_depth_and_root(&e));
+        let inner = self.inject_log.borrow().last().cloned();
+        (inner, outer)
     }
 
     /// hand every configured owner to `newowner`, sent by the genesis owner (children through their factory).
@@ -716,7 +961,7 @@ impl Hub {
         let n = Some(self.n.to_string());
         let o = self.o.clone();
         let mut out = vec![];
-        let mut run = |app: &mut App, name: &'static str, target: &Addr, msg: Binary| {
+        let mut run = |app: &mut HubApp, name: &'static str, target: &Addr, msg: Binary| {
             let r = app
                 .execute(
                     o.clone(),
@@ -925,6 +1170,8 @@ impl Hub {
             "user" => self.u.clone(),
             "wasmAdmin" => self.a.clone(),
             "flowCreator" => self.f.clone(),
+            "otherFlowCreator" => self.g.clone(),
+            "borrower" => self.borrower.clone(),
             "self" => self.target(contract),
             "factory" => self.target(Self::factory_of(contract)),
             "sibling" => self.target(Self::sibling_of(contract)),
@@ -943,7 +1190,7 @@ impl Hub {
     }
 
     pub fn eoas(&self) -> Vec<Addr> {
-        vec![self.o.clone(), self.n.clone(), self.u.clone(), self.a.clone(), self.f.clone()]
+        vec![self.o.clone(), self.n.clone(), self.u.clone(), self.a.clone(), self.f.clone(), self.g.clone()]
     }
 
     pub fn all_contracts(&self) -> Vec<(&'static str, Addr)> {
@@ -967,6 +1214,7 @@ impl Hub {
             ("vault_lp", self.vault_lp.clone()),
             ("asset_token", self.asset_token.clone()),
             ("sink", self.sink.clone()),
+            ("borrower", self.borrower.clone()),
         ]
     }
 
